@@ -40,7 +40,7 @@ func init() {
 			"(WITH c AS (Qi) Qo(c); Qo((Qi) x); chains c1->c2->outer; a CTE referenced twice through a self-join, through FROM plus an " +
 			"IN-subquery, through a filtering CTE plus a join, or through a filtered FROM plus an aggregating subquery; FROM `c.items` on an array-valued CTE column) that must equal the staged evaluation over materialised intermediate " +
 			"results passed in as plain input, or a subquery form (select-item subquery on the row / on `<-` the enclosing document, also correlated with the outer row through `<-.col`; IN-subquery on the row and on the root, " +
-			"[NOT] EXISTS correlated with the outer row over nested arrays whose elements may lack keys; IN subqueries also with ORDER BY / LIMIT / OFFSET and in the plain one-column form; CTE names that shadow a table of the document) that must equal the standalone execution of the subquery text on that row (EXISTS: the " +
+			"[NOT] EXISTS correlated with the outer row (outer columns by bare name or as `<-.col`) over nested arrays whose elements may lack keys; IN subqueries also with ORDER BY / LIMIT / OFFSET and in the plain one-column form; CTE names that shadow a table of the document) that must equal the standalone execution of the subquery text on that row (EXISTS: the " +
 			"reference 'some element satisfies p'). Non-trivial: inner result non-empty and the outer stage filters or projects it.",
 		Assumptions: []string{
 			"outer and nested column names are disjoint in EXISTS; derived tables are always aliased",
@@ -374,7 +374,25 @@ func genC07(t *rapid.T) any {
 		if c.Not {
 			kw = "NOT EXISTS"
 		}
-		c.Outer = fmt.Sprintf("SELECT %s, %s FROM t WHERE %s (SELECT %s FROM %s WHERE %s)", sc.k, sc.s, kw, sc.p, sc.items, sq.Render(c.ExPred, nil))
+		pred := c.ExPred
+		if rapid.IntRange(0, 2).Draw(t, "exback") == 0 {
+			// the outer row's columns written as back references (`<-.col`) instead of bare names
+			outer := map[string]bool{sc.k: true, sc.s: true, sc.v: true}
+			var re func(e *sq.E) *sq.E
+			re = func(e *sq.E) *sq.E {
+				n := *e
+				if e.K == "col" && outer[e.S] {
+					n.S = "<-." + e.S
+				}
+				n.A = make([]*sq.E, len(e.A))
+				for i, a := range e.A {
+					n.A[i] = re(a)
+				}
+				return &n
+			}
+			pred = re(c.ExPred)
+		}
+		c.Outer = fmt.Sprintf("SELECT %s, %s FROM t WHERE %s (SELECT %s FROM %s WHERE %s)", sc.k, sc.s, kw, sc.p, sc.items, sq.Render(pred, nil))
 		c.InCol = sc.items
 	}
 	return c
